@@ -585,11 +585,18 @@ func (m *machine) registerCodecIntrinsics() {
 		} else {
 			j = fr.i.toJSON(it.t, it.v, 0)
 		}
-		return tuple{[]value{&jsonBlob{j: j, kind: "json"}}, iface{}}
+		bl := &jsonBlob{j: j, kind: "json"}
+		if fr.i.symSizes > 0 {
+			return tuple{fr.i.newBlobRope(bl, fr.i.symSizes), iface{}}
+		}
+		return tuple{[]value{bl}, iface{}}
 	}
 	in["encoding/json.Unmarshal"] = func(fr *frame, fn *ssa.Function, args []value) value {
 		i := fr.i
 		bl := blobOf(args[0])
+		if rb, isRope := ropeBlob(args[0]); isRope {
+			bl = rb
+		}
 		if bl == nil {
 			// raw bytes that no Marshal produced: a parse error (byte-level JSON is outside the model)
 			return i.newError("json: malformed input (raw bytes)")
